@@ -226,6 +226,7 @@ class C20(Prop):
         buf = {}            # one dict object the caller keeps refilling (aliasing seam)
         sorted_keys = sorted(keys)
         sig = []
+        states = set()
         got_any = judged_check = False
         for i, op in enumerate(plan["ops"]):
             sim.begin_op(i)
@@ -298,17 +299,19 @@ class C20(Prop):
                 sig.append("x")
                 if list(real.retrieve({})) or real.cache or real.seen_set.seen or real.seen_set.all_seen:
                     sim.violate("clear", {"left": "index not empty after clear()"})
+            states.add((kind, min(len(model.store), 6), sum(1 for b, _ in model.store if len(b) < len(keys)),
+                        len(keys)))
             sim.end_op()
             if sim.violations:
                 break
         set_current(None)
+        res.states = tuple(states)
         res.violations = sim.violations
         res.digest = sim.digest()
         res.counters = sim.counters
         res.signature = tuple(sig)
         res.nontrivial = got_any and judged_check
         res.steps = sim.seq
-        res.states = ()
         return res
 
     # shrinking: shrink bindings / values
